@@ -84,7 +84,7 @@ func checkC17(c *core.Ctx) []core.Floor {
 	}
 	core.ParallelFor(n, c.Workers, func(i int) { runC17(c, drv, i) })
 	return []core.Floor{{Key: "scripts", Min: int64(n)}, {Key: "use_same", Min: 20}, {Key: "use_other", Min: 50}, {Key: "use_missing", Min: 20}, {Key: "use_othercase", Min: 5},
-		{Key: "restart_clean", Min: 10}, {Key: "restart_exit", Min: 10}, {Key: "restart_kill", Min: 5}, {Key: "restart_killhot", Min: 5}, {Key: "reuse_same_then_insert_then_pause", Min: 5}, {Key: "failed_use_then_dml", Min: 5},
+		{Key: "restart_clean", Min: 10}, {Key: "restart_exit", Min: 10}, {Key: "restart_kill", Min: 5}, {Key: "restart_killhot", Min: 5}, {Key: "scripted_openings_updates_only_then_away_and_back", Min: 5}, {Key: "reuse_same_then_insert_then_pause", Min: 5}, {Key: "failed_use_then_dml", Min: 5},
 		{Key: "restart_boundary_databases_verified", Min: 100}, {Key: "dumps_after_use_compared", Min: 100}, {Key: "create_existing", Min: 10}, {Key: "scripted_openings_with_hundreds_of_databases", Min: 1}}
 }
 
@@ -111,6 +111,55 @@ func runC17(c *core.Ctx, drv string, idx int) {
 	lastWasUse, lastFailedUse := "", false
 	nontrivial := false
 	sinceUseSameInsert := false
+	if idx%8 == 3 {
+		// scripted opening: rows are inserted and reach the data file; then
+		// ONLY updates and deletes (no row id handed out, no page allocated,
+		// no table created: of the file header nothing but the next log
+		// sequence number moves), a pause, away to another database and back,
+		// one more change, and a restart - clean, or a kill right after that
+		// change
+		a, b := c17Key(names[0]), c17Key(names[1])
+		for _, nm := range []string{a, b} {
+			steps = append(steps, c17Step{kind: "create_db", name: c17Spell(nm)})
+			dbs[nm] = &c17DB{m: model.NewDB(), grave: model.Graveyard{}, h: gen.NewHist(core.NewRand(r.U64()), true)}
+		}
+		steps = append(steps, c17Step{kind: "use", name: c17Spell(a), useCls: "other"})
+		cur = a
+		d := dbs[a]
+		push := func(st *proto.Stmt) {
+			steps = append(steps, c17Step{kind: "stmt", stmt: st, text: model.RenderStmt(st, model.Plain)})
+		}
+		ct := d.h.CreateTable()
+		d.h.DB.Apply(ct)
+		push(ct)
+		t := d.h.DB.Tables[0]
+		for len(t.Rows) < 4 {
+			ins := d.h.Insert(t, r.Range(2, 4))
+			if f, _, _, err := d.h.DB.Apply(ins); f == "" && err == nil {
+				push(ins)
+			}
+		}
+		steps = append(steps, c17Step{kind: "pause", ms: 250})
+		for k := r.Range(1, 3); k > 0; k-- {
+			if st := d.h.NextRowChange(); st != nil {
+				push(st)
+			}
+		}
+		steps = append(steps, c17Step{kind: "pause", ms: []int{130, 250}[r.Intn(2)]})
+		steps = append(steps, c17Step{kind: "use", name: c17Spell(b), useCls: "other"}, c17Step{kind: "use", name: c17Spell(a), useCls: "other"})
+		if st := d.h.NextRowChange(); st != nil && r.Bool() {
+			push(st)
+			steps = append(steps, c17Step{kind: "pause", ms: 250}, c17Step{kind: "restart", how: "clean"})
+			cur = ""
+		} else if st != nil {
+			steps = append(steps, c17Step{kind: "pause", ms: 250}, c17Step{kind: "quiesce"})
+			push(st)
+			steps = append(steps, c17Step{kind: "restart", how: "killhot"})
+			cur = ""
+		}
+		nsteps += len(steps)
+		c.Count("scripted_openings_updates_only_then_away_and_back", 1)
+	}
 	if idx%4 == 1 {
 		// scripted opening: a database with more than 7 tables (two-level
 		// catalog), a table whose root has moved, then away and back without
